@@ -1,5 +1,117 @@
-From Coq Require Import ZArith List.
-From FV Require Import Models.Trivia Models.DocComment.
-Theorem C19_stub : advance pos0 nil = pos0.
-Proof. reflexivity. Qed.
-Print Assumptions C19_stub.
+(* C19 — layout of the source text does not change meaning; diagnostics follow the text.
+   Models: Models/Trivia.v (Position.Advance, the lexer's pattern table and main loop), Models/DocComment.v (the parser's
+   comment handling, hasExternTag).  Only closed statements; every one is followed by Print Assumptions. *)
+From Coq Require Import ZArith List Bool.
+From FV Require Import Models.Trivia Models.DocComment Proofs.TriviaP.
+Import ListNotations.
+Open Scope Z_scope.
+
+(* ---- (1) positions.  Position.Advance commutes with the shift of the gap, for every byte string (valid UTF-8 or
+   not, with or without tabs): same line as the gap -> line and column move, later lines -> only the line moves. *)
+Theorem C19_advance_shift : forall L dl dc di p s,
+  L <= line p -> advance (shiftp L dl dc di p) s = shiftp L dl dc di (advance p s).
+Proof. exact advance_shift. Qed.
+Print Assumptions C19_advance_shift.
+
+(* Whatever moved the lexer's cursor at the gap from P to P', every token and every unrecognised-character diagnostic of
+   the rest of the text (any text: accepted or rejected program) is the old one with its start and end moved by
+   gap_shift P P' — so the expected line:column of every later diagnostic is computable. *)
+Theorem C19_positions_shift : forall fuel P P' post,
+  lex_loop fuel P' post = map (gap_shift_tok P P') (lex_loop fuel P post) /\
+  bad_loop fuel P' post = map (gap_shift P P') (bad_loop fuel P post).
+Proof. intros; split; [apply positions_shift | apply bad_positions_shift]. Qed.
+Print Assumptions C19_positions_shift.
+
+Theorem C19_shift_reading : forall P P' p,
+  (line p = line P -> line (gap_shift P P' p) = line P' /\ col (gap_shift P P' p) = col P' + (col p - col P)) /\
+  (line p <> line P -> line (gap_shift P P' p) = line p + (line P' - line P) /\ col (gap_shift P P' p) = col p).
+Proof. intros; split; [apply gap_shift_same_line | apply gap_shift_later_line]. Qed.
+Print Assumptions C19_shift_reading.
+
+(* Full statement for inserted whitespace (spaces, tabs, newlines, CR, FF) in front of a token or at end of file:
+   the run is consumed by one match, and the rest is shifted by what advance computes over the run. *)
+Theorem C19_ws_insert_shift : forall fuel P t post, t <> [] -> all_ws t -> starts_non_ws post ->
+  lex_loop (S fuel) P (t ++ post) = map (gap_shift_tok P (advance P t)) (lex_loop fuel P post) /\
+  bad_loop (S fuel) P (t ++ post) = map (gap_shift P (advance P t)) (bad_loop fuel P post).
+Proof. exact ws_insert_shift. Qed.
+Print Assumptions C19_ws_insert_shift.
+
+Theorem C19_ws_insert_nonvacuous :
+  let P := mkpos 3 7 40 in let t := [32; 13; 10; 9; 9] in let post := [98; 59] in
+  all_ws t /\ starts_non_ws post /\ advance P t = mkpos 4 9 45 /\
+  map (fun x => (line (tstart x), col (tstart x))) (lex_loop 4 P (t ++ post)) = [(4, 9); (4, 10); (4, 11)].
+Proof. exact ws_insert_example. Qed.
+Print Assumptions C19_ws_insert_nonvacuous.
+
+(* ---- (2) token sequence.  Boundary lemmas of the ported recognisers: a match that ends at a token boundary is
+   unchanged when the following text is replaced by text starting with a trivia byte c (whitespace or `/`).
+   Proved: identifiers/keywords, string literals, block comments, the whole operator table.  NOT proved: numbers and
+   byte literals (bounded look-ahead), and the composition through the ordered table (an earlier pattern must still
+   fail): these are covered by the differential tie only.  Hence _partial; the full statement is C19_tokens_invariant_full. *)
+Theorem C19_tokens_boundary_partial :
+  (forall m r c r', m <> [] -> m_ident (m ++ r) = length m -> is_alnum_ c = false -> m_ident (m ++ c :: r') = length m) /\
+  (forall m r r', m <> [] -> m_string (m ++ r) = length m -> m_string (m ++ r') = length m) /\
+  (forall m r r', m_block (m ++ r) = length m -> (0 < length m)%nat -> m_block (m ++ r') = length m) /\
+  (forall m r c r', m <> [] -> trivia_start c = true -> m_op (m ++ r) = length m -> m_op (m ++ c :: r') = length m).
+Proof.
+  exact (conj m_ident_boundary (conj m_string_boundary (conj m_block_boundary m_op_boundary))).
+Qed.
+Print Assumptions C19_tokens_boundary_partial.
+
+Definition is_gap (s : list Z) (g : nat) : bool :=
+  forallb (fun x => negb ((idx (tstart x) <? Z.of_nat g) && (Z.of_nat g <? idx (tend x)))) (lex s).
+(* in the reformatted text no significant token overlaps the inserted bytes, and a comment token that overlaps them
+   lies inside them: the inserted text is trivia IN THE RESULT *)
+Definition inserted_is_trivia (s : list Z) (g : nat) (t : list Z) : bool :=
+  let lo := Z.of_nat g in let hi := Z.of_nat (g + length t) in
+  forallb (fun x => let a := idx (tstart x) in let b := idx (tend x) in
+                    negb ((a <? hi) && (lo <? b)) || (is_comment x && (lo <=? a) && (b <=? hi)))
+          (lex (insert_at s g t)).
+Definition C19_tokens_invariant_full : Prop :=
+  forall s g t, is_gap s g = true -> inserted_is_trivia s g t = true -> lex_bad s = [] ->
+    map (fun x => (tcls x, traw x)) (significant (lex (insert_at s g t))) =
+    map (fun x => (tcls x, traw x)) (significant (lex s)).
+
+(* the two side conditions of the full statement are necessary *)
+Theorem C19_slash_fuse_refuted : exists s g t,
+  is_gap s g = true /\ lex_bad s = [] /\ inserted_is_trivia s g t = false /\
+  map traw (significant (lex (insert_at s g t))) <> map traw (significant (lex s)).
+Proof.
+  exists f_src, 3%nat, f_cmt. split; [vm_compute; reflexivity|]. split; [vm_compute; reflexivity|].
+  split; [vm_compute; reflexivity|]. exact slash_fuse_witness.
+Qed.
+Print Assumptions C19_slash_fuse_refuted.
+
+Theorem C19_lone_quote_refuted : exists s g t,
+  is_gap s g = true /\ lex_bad s <> [] /\
+  map traw (significant (lex (insert_at s g t))) <> map traw (significant (lex s)).
+Proof.
+  exists l_src, 6%nat, l_cmt. split; [vm_compute; reflexivity|].
+  split; [exact (proj2 lone_quote_witness) | exact (proj1 lone_quote_witness)].
+Qed.
+Print Assumptions C19_lone_quote_refuted.
+
+(* ---- the column does NOT always move with the inserted text (open finding F-C19-TAB-QUIRK):
+   in `a TAB b` one space inserted directly in front of b moves no token. *)
+Theorem C19_column_follows_text_refuted : exists s g t,
+  t = [32] /\ is_gap s g = true /\
+  map (fun x => (tcls x, line (tstart x), col (tstart x))) (lex (insert_at s g t)) =
+  map (fun x => (tcls x, line (tstart x), col (tstart x))) (lex s).
+Proof.
+  exists q_src, 2%nat, [32]. split; [reflexivity|]. split; [vm_compute; reflexivity|].
+  exact (proj1 tab_quirk_witness).
+Qed.
+Print Assumptions C19_column_follows_text_refuted.
+
+(* ---- (3) documentation comments are not inert (open finding F-C19-EXTERN-DOC): a comment inserted above a fn sets its
+   extern flag although the significant tokens are unchanged; a blank line inserted below such a comment clears it. *)
+Theorem C19_doc_inert_refuted :
+  (exists s t, doc_flags s [0] = [false] /\ doc_flags (insert_at s 0 t) [Z.of_nat (length t)] = [true] /\
+               map traw (significant (lex (insert_at s 0 t))) = map traw (significant (lex s))) /\
+  (exists s g, doc_flags s [Z.of_nat g] = [true] /\ doc_flags (insert_at s g [10]) [Z.of_nat g + 1] = [false]).
+Proof.
+  split.
+  - exists d_src, d_cmt. exact extern_insert_witness.
+  - exists (d_cmt ++ d_src), 11%nat. exact extern_blank_line_witness.
+Qed.
+Print Assumptions C19_doc_inert_refuted.
